@@ -267,6 +267,8 @@ def body(led):
     led.trust('cmverif symbolic executor')
     check_panel_history(led)
     check_panel_analyses(led)
+    from . import c20_shell
+    c20_shell.check(led)
 
 
 def main():
